@@ -581,6 +581,7 @@ def run(chk):
     _negzero_rule(chk, prog)
     _depthsym_rule(chk, prog)
     _writerpure_rule(chk, prog)
+    _opmask_rule(chk, prog)
 
 
 def _asmrange_rule(chk, prog):
@@ -855,3 +856,54 @@ def _writerpure_rule(chk, prog):
                           "`%s` changes the value that is being marshalled: what was written into it survives the call and shows up in "
                           "later images or in the running program" % bad.text()[:60])
     chk.floor(rule, 8, n)
+
+
+def _opmask_rule(chk, prog):
+    """Bit 7 of an instruction word is the breakpoint flag; the opcode is the low 7 bits.  Code that classifies an
+    instruction with `& 0xFF` sees a different opcode when a breakpoint is set: janet_verify rejected every function
+    whose LAST instruction carries a breakpoint, so such a function marshalled but could not be read back."""
+    rule = "C09-OPMASK"
+    chk.rule(rule, "every place that classifies an instruction word by its opcode masks with 0x7F (the breakpoint bit is not part of the opcode)")
+    n = 0
+    for tun in ("bytecode.c", "asm.c", "debug.c", "marsh.c"):
+        tu = prog.tus.get(tun)
+        if tu is None:
+            continue
+        for fn in tu.funcs.values():
+            for x in fn.nodes:
+                if not (x.k == "bin" and x.op == "&"):
+                    continue
+                l, r = strip_casts(x.kids[0]), strip_casts(x.kids[1])
+                if r.k != "int" or r.v not in (0x7F, 0xFF):
+                    continue
+                word = (l.k == "ref" and l.name in ("instr", "instruction")) or \
+                    (l.k == "sub" and any(y.k == "mem" and y.field == "bytecode" for y in l.walk())) or \
+                    (l.k == "un" and l.op == "*" and any(y.k == "ref" and y.name == "pc" for y in l.walk()))
+                if not word:
+                    continue
+                # is the masked value used as an opcode: a switch subject, an index into janet_instructions, compared with JOP_*
+                p = x.parent
+                while p is not None and p.k in ("cast", "paren"):
+                    p = p.parent
+                as_op = False
+                if p is not None and p.k == "switch":
+                    as_op = True
+                elif p is not None and p.k == "sub":
+                    as_op = "janet_instructions" in p.text() or "janet_instruction" in p.text()
+                elif p is not None and p.k == "bin" and p.op in ("==", "!=", ">=", "<"):
+                    as_op = any(y.k == "ref" and (y.name or "").startswith("JOP_") for y in p.walk())
+                elif p is not None and p.k == "vardecl" and p.name in ("opcode", "lastop", "op"):
+                    as_op = True
+                if not as_op:
+                    continue
+                n += 1
+                chk.instance(rule)
+                chk.analysed(fn)
+                if r.v == 0x7F:
+                    chk.ok(rule, "%s: `%s`" % (fn.name, x.text()[:40]))
+                else:
+                    chk.violation(rule, tun, fn.name, "mask-0xFF", x.loc,
+                                  "`%s` takes the opcode together with the breakpoint bit: with a breakpoint on that instruction it "
+                                  "is classified as a different opcode (janet_verify: a function with a breakpoint on its last "
+                                  "instruction marshals but is rejected when read back)" % x.text()[:50])
+    chk.floor(rule, 5, n)
